@@ -139,15 +139,9 @@ Proof.
 Qed.
 
 Lemma cursor_up_inv s n : EInv s -> EInv (eres_st (cursor_up s n)).
-Proof.
-  intros H; unfold cursor_up. destruct (get_cursor_up_position _ _ _); cbn [eres_st]; [|exact H].
-  apply with_pref_inv, set_cursor_inv, H.
-Qed.
+Proof. intros H; unfold cursor_up; cbn [eres_st]. apply with_pref_inv, set_cursor_inv, H. Qed.
 Lemma cursor_down_inv s n : EInv s -> EInv (eres_st (cursor_down s n)).
-Proof.
-  intros H; unfold cursor_down. destruct (get_cursor_down_position _ _ _); cbn [eres_st]; [|exact H].
-  apply with_pref_inv, set_cursor_inv, H.
-Qed.
+Proof. intros H; unfold cursor_down; cbn [eres_st]. apply with_pref_inv, set_cursor_inv, H. Qed.
 
 Lemma set_working_index_inv s i : EInv s -> EInv (set_working_index s i).
 Proof.
@@ -162,15 +156,37 @@ Proof.
   intros H; unfold go_to_history. destruct (_ && _); cbn [eres_st]; [|exact H].
   apply set_cursor_inv, (set_working_index_inv s i H).
 Qed.
+Lemma history_backward_pos_inv s n : EInv s -> EInv (eres_st (history_backward_pos s n)).
+Proof.
+  intros H; unfold history_backward_pos. destruct (0 <? ewi s); cbn [eres_st]; [|exact H].
+  apply set_cursor_inv. now apply set_working_index_inv.
+Qed.
+Lemma history_forward_pos_inv s n : EInv s -> EInv (eres_st (history_forward_pos s n)).
+Proof.
+  intros H; unfold history_forward_pos. destruct (_ <? _); cbn [eres_st]; [|exact H].
+  apply set_cursor_inv, set_cursor_inv. now apply set_working_index_inv.
+Qed.
 Lemma history_backward_inv s n : EInv s -> EInv (eres_st (history_backward s n)).
 Proof.
-  intros H; unfold history_backward. destruct (0 <? ewi s); cbn [eres_st]; [|exact H].
-  apply set_cursor_inv. now apply set_working_index_inv.
+  intros H; unfold history_backward. destruct (n =? 0); [exact H|].
+  destruct (n <? 0); [now apply history_forward_pos_inv|now apply history_backward_pos_inv].
 Qed.
 Lemma history_forward_inv s n : EInv s -> EInv (eres_st (history_forward s n)).
 Proof.
-  intros H; unfold history_forward. destruct (_ <? _); cbn [eres_st]; [|exact H].
-  apply set_cursor_inv, set_cursor_inv. now apply set_working_index_inv.
+  intros H; unfold history_forward. destruct (n =? 0); [exact H|].
+  destruct (n <? 0); [now apply history_backward_pos_inv|now apply history_forward_pos_inv].
+Qed.
+Lemma history_backward_ok s n : exists s', history_backward s n = EOk s'.
+Proof.
+  unfold history_backward, history_forward_pos, history_backward_pos.
+  destruct (n =? 0); [eexists; reflexivity|]. destruct (n <? 0);
+    match goal with |- context [if ?c then _ else _] => destruct c end; eexists; reflexivity.
+Qed.
+Lemma history_forward_ok s n : exists s', history_forward s n = EOk s'.
+Proof.
+  unfold history_forward, history_forward_pos, history_backward_pos.
+  destruct (n =? 0); [eexists; reflexivity|]. destruct (n <? 0);
+    match goal with |- context [if ?c then _ else _] => destruct c end; eexists; reflexivity.
 Qed.
 
 Lemma auto_up_inv s n g : EInv s -> EInv (eres_st (auto_up s n g)).
@@ -188,7 +204,8 @@ Qed.
 
 Lemma paste_inv s d ty m c : EInv s -> EInv (eres_st (paste s d ty m c)).
 Proof.
-  intros H; unfold paste. destruct (ty =? 0); [now apply set_document_inv|].
+  intros H; unfold paste. destruct (c <? 1); [now apply set_document_inv|].
+  destruct (ty =? 0); [now apply set_document_inv|].
   destruct (ty =? 1); [|exact H]. destruct (m =? 1); now apply set_document_inv.
 Qed.
 
@@ -282,52 +299,28 @@ Proof.
   apply set_text_err in E. subst. right; eexists; reflexivity.
 Qed.
 
-(* cursor_up / cursor_down: Ok exactly when count >= 1 *)
-Lemma cursor_up_ok_iff s n : (exists s', cursor_up s n = EOk s') <-> 1 <= n.
-Proof.
-  unfold cursor_up, get_cursor_up_position. destruct (n <? 1) eqn:E; split.
-  - intros [s' H]; discriminate.
-  - lia.
-  - lia.
-  - intros _; eexists; reflexivity.
-Qed.
-Lemma cursor_down_ok_iff s n : (exists s', cursor_down s n = EOk s') <-> 1 <= n.
-Proof.
-  unfold cursor_down, get_cursor_down_position. destruct (n <? 1) eqn:E; split.
-  - intros [s' H]; discriminate.
-  - lia.
-  - lia.
-  - intros _; eexists; reflexivity.
-Qed.
-Lemma cursor_up_err s n c s' : cursor_up s n = EErr c s' -> c = E_ASSERT /\ n < 1 /\ s' = s.
-Proof.
-  unfold cursor_up, get_cursor_up_position. destruct (n <? 1) eqn:E; [|discriminate].
-  intros H; injection H as <- <-. repeat split; lia.
-Qed.
-Lemma cursor_down_err s n c s' : cursor_down s n = EErr c s' -> c = E_ASSERT /\ n < 1 /\ s' = s.
-Proof.
-  unfold cursor_down, get_cursor_down_position. destruct (n <? 1) eqn:E; [|discriminate].
-  intros H; injection H as <- <-. repeat split; lia.
-Qed.
+(* cursor_up / cursor_down are total (since fix 46fed32: any count) *)
+Lemma cursor_up_total s n : exists s', cursor_up s n = EOk s'.
+Proof. unfold cursor_up; eexists; reflexivity. Qed.
+Lemma cursor_down_total s n : exists s', cursor_down s n = EOk s'.
+Proof. unfold cursor_down; eexists; reflexivity. Qed.
 
 (* every error a buffer operation can raise is one of the declared ones *)
 Lemma ebind_err r k c s' :
   ebind r k = EErr c s' -> r = EErr c s' \/ exists s1, r = EOk s1 /\ k s1 = EErr c s'.
 Proof. destruct r as [s1|c1 s1]; cbn [ebind]; [right; eauto|left; assumption]. Qed.
 
-Lemma auto_up_err s n g c s' : auto_up s n g = EErr c s' -> c = E_ASSERT /\ n < 1.
+Lemma auto_up_ok s n g : exists s', auto_up s n g = EOk s'.
 Proof.
-  unfold auto_up. destruct (0 <? _).
-  - intros H; apply cursor_up_err in H; tauto.
-  - destruct (esel s); [discriminate|]. unfold history_backward.
-    destruct (0 <? ewi s); cbn [ebind]; destruct g; discriminate.
+  unfold auto_up. destruct (0 <? _); [apply cursor_up_total|].
+  destruct (esel s); [eexists; reflexivity|].
+  destruct (history_backward_ok s n) as [s1 ->]. cbn [ebind]. destruct g; eexists; reflexivity.
 Qed.
-Lemma auto_down_err s n g c s' : auto_down s n g = EErr c s' -> c = E_ASSERT /\ n < 1.
+Lemma auto_down_ok s n g : exists s', auto_down s n g = EOk s'.
 Proof.
-  unfold auto_down. destruct (_ <? _).
-  - intros H; apply cursor_down_err in H; tauto.
-  - destruct (esel s); [discriminate|]. unfold history_forward.
-    destruct (_ <? _); cbn [ebind]; destruct g; discriminate.
+  unfold auto_down. destruct (_ <? _); [apply cursor_down_total|].
+  destruct (esel s); [eexists; reflexivity|].
+  destruct (history_forward_ok s n) as [s1 ->]. cbn [ebind]. destruct g; eexists; reflexivity.
 Qed.
 
 Lemma bstep_err_declared s o c s' :
@@ -343,16 +336,17 @@ Proof.
   - unfold delete in H. destruct (ec s <? _); [|discriminate]. right; eapply set_text_err; eassumption.
   - discriminate.
   - discriminate.
-  - apply cursor_up_err in H; tauto.
-  - apply cursor_down_err in H; tauto.
+  - destruct (cursor_up_total s n) as [s1 E]; rewrite E in H; discriminate.
+  - destruct (cursor_down_total s n) as [s1 E]; rewrite E in H; discriminate.
   - discriminate.
   - discriminate.
   - unfold go_to_history in H. destruct (_ && _); discriminate.
-  - unfold history_backward in H. destruct (0 <? _); discriminate.
-  - unfold history_forward in H. destruct (_ <? _); discriminate.
-  - apply auto_up_err in H; tauto.
-  - apply auto_down_err in H; tauto.
-  - unfold paste in H. destruct (ty =? 0); [apply set_document_err in H; tauto|].
+  - destruct (history_backward_ok s n) as [s1 E]; rewrite E in H; discriminate.
+  - destruct (history_forward_ok s n) as [s1 E]; rewrite E in H; discriminate.
+  - destruct (auto_up_ok s n g) as [s1 E]; rewrite E in H; discriminate.
+  - destruct (auto_down_ok s n g) as [s1 E]; rewrite E in H; discriminate.
+  - unfold paste in H. destruct (count <? 1); [apply set_document_err in H; tauto|].
+    destruct (ty =? 0); [apply set_document_err in H; tauto|].
     destruct (ty =? 1); [|injection H as <- _; now left].
     destruct (mode =? 1); apply set_document_err in H; tauto.
 Qed.
@@ -553,9 +547,6 @@ Qed.
 Lemma run_handler_err h s arg data c s' :
   CInv s -> run_handler h s arg data = EErr c s' ->
   c = E_READONLY \/
-  (c = E_ASSERT /\ arg < 1 /\
-   match h with HViUpSel | HViDownSel | HViUpNav | HViGoUpK | HViDownNav | HViGoDownJ
-              | HEmacsAutoUp | HEmacsAutoDown => True | HBackwardDeleteChar => False | _ => False end) \/
   (c = E_INDEX /\ h = HViBackspaceMulti /\ exists p, In p (emc s) /\ len (et s) < p).
 Proof.
   intros HC. destruct h; cbn [run_handler]; intros H; try discriminate.
@@ -576,7 +567,7 @@ Proof.
   - apply ebind_err in H as [H|(s1 & _ & H)]; [left; eapply set_text_err; eassumption|discriminate].
   - destruct (mc_backspace_parts _ _ _) as [parts del].
     destruct (existsb _ (emc s)) eqn:Ex.
-    + injection H as <- _. right; right. split; [reflexivity|]. split; [reflexivity|].
+    + injection H as <- _. right. split; [reflexivity|]. split; [reflexivity|].
       apply existsb_exists in Ex as (p & Hp & Hlt). exists p. split; [exact Hp|lia].
     + destruct del; [|discriminate].
       apply ebind_err in H as [H|(s1 & _ & H)]; [left; eapply set_text_err; eassumption|discriminate].
@@ -584,43 +575,41 @@ Proof.
     apply ebind_err in H as [H|(s1 & _ & H)]; [left; eapply set_text_err; eassumption|discriminate].
   - match type of H with context [if ?c then _ else _] => destruct c end; discriminate.
   - match type of H with context [if ?c then _ else _] => destruct c end; discriminate.
-  - apply cursor_up_err in H. right; left; tauto.
-  - apply cursor_down_err in H. right; left; tauto.
-  - apply auto_up_err in H. right; left; tauto.
-  - apply auto_up_err in H. right; left; tauto.
-  - apply auto_down_err in H. right; left; tauto.
-  - apply auto_down_err in H. right; left; tauto.
-  - unfold history_backward in H. destruct (0 <? _); discriminate.
-  - unfold history_forward in H. destruct (_ <? _); discriminate.
-  - apply auto_up_err in H. right; left; tauto.
-  - apply auto_down_err in H. right; left; tauto.
+  - destruct (auto_up_ok s arg false) as [s1 E]; rewrite E in H; discriminate.
+  - destruct (auto_up_ok s arg true) as [s1 E]; rewrite E in H; discriminate.
+  - destruct (auto_down_ok s arg false) as [s1 E]; rewrite E in H; discriminate.
+  - destruct (auto_down_ok s arg true) as [s1 E]; rewrite E in H; discriminate.
+  - destruct (history_backward_ok s arg) as [s1 E]; rewrite E in H; discriminate.
+  - destruct (history_forward_ok s arg) as [s1 E]; rewrite E in H; discriminate.
+  - destruct (auto_up_ok s arg false) as [s1 E]; rewrite E in H; discriminate.
+  - destruct (auto_down_ok s arg false) as [s1 E]; rewrite E in H; discriminate.
 Qed.
 
 (* the step as the key processor performs it: for a repeat count >= 1 and
    multiple cursors within the text no exception leaves _call_handler *)
 Lemma call_handler_total h s arg data :
-  EInv s -> MInv s -> 1 <= arg ->
+  EInv s -> MInv s ->
   exists s', call_handler h s arg data = EOk s' /\ EInv s'.
 Proof.
-  intros H HM Harg.
+  intros H HM.
   pose proof (call_handler_inv h s arg data H) as HI.
   unfold call_handler in *.
   destruct (run_handler h s arg data) as [s1|c s1] eqn:E.
   - eexists; split; [reflexivity|exact HI].
-  - destruct (run_handler_err h s arg data c s1 (proj1 H) E) as [->|[(-> & Hlt & _)|(-> & -> & p & Hp & Hlt)]].
+  - destruct (run_handler_err h s arg data c s1 (proj1 H) E) as [->|(-> & -> & p & Hp & Hlt)].
     + change (E_READONLY =? E_READONLY) with true in *. eexists; split; [reflexivity|exact HI].
-    + lia.
     + specialize (HM p Hp). lia.
 Qed.
 
-(* F15: with a repeat count below 1 (Meta-minus / Meta-0 in Emacs mode) the
-   assertion of Document.get_cursor_down_position escapes *)
-Lemma updown_nonpositive_escapes :
-  exists s arg, EInv s /\ MInv s /\ call_handler HEmacsAutoDown s arg [] = EErr E_ASSERT s.
+(* the multiple-cursor hypothesis is necessary: a position beyond the text
+   makes Backspace in insert-multiple mode raise IndexError (what finding F8b
+   showed on the real editor before history navigation was disabled there) *)
+Lemma stale_multicursor_escapes :
+  exists s, EInv s /\ ~ MInv s /\ call_handler HViBackspaceMulti s 1 [] = EErr E_INDEX s.
 Proof.
-  exists (mkE [97; 10; 98] 0 None [] false None [[97; 10; 98]] 0 false M_INSERT false None false false), (-1).
+  exists (mkE [120] 1 None [1; 5] false None [[120]] 0 true M_INSERT_MULTIPLE false None false false).
   split; [split; [unfold CInv; cbn; lia|unfold SInv; cbn; discriminate]|].
-  split; [unfold MInv; cbn; tauto|]. vm_compute. reflexivity.
+  split; [intros HM; specialize (HM 5 ltac:(cbn; tauto)); cbn in HM; lia|]. vm_compute. reflexivity.
 Qed.
 
 (* Escape handlers: navigation mode, nothing pending *)
